@@ -22,6 +22,20 @@ Oracle:
   no duplicate cells, area conserved, weight grid = weights scattered at (row-row_start, col-col_start)
   with the parent attributes and origin matching.  No centre can be inside: empty result or ValueError.
   voronoi: exact integer squared distances, lowest index on ties, weights = counts / n.
+
+Size ladder (added, same integer oracles):
+  big-intersect  fine grids 16x16, 17x17, 64x64, 65x65 (thorough: 32, 33, 128, 129 too) with structured cell sets
+            {full, checkerboard, 2-cell-thick ring (holes: filled differs), diagonal band} x m (ratio m/2 = 1..4) x
+            a coarse grid that covers the fine grid and one that covers about a quarter x 6 offsets x filled;
+            grids beyond 20x20 use even m and even offsets only (no centre on a coarse edge, unique expectation;
+            the flow-based feasibility test is too slow for thousands of cells)
+  big-voronoi    fine 16x16 and 17x17 (thorough 33, 64) x {full, checkerboard, ring} x 7..65 points
+            (7,8,9,15,16,17,31,32,33,63,64,65) on 4 structured patterns (square lattice over the grid, cell corners
+            along a line = ties in every column, cell centres along a wrapped diagonal, lattice with coincident points)
+Layouts of xypoints (added, differential): on the first case of every voronoi unit and on the 7-, 16- and 65-point
+  cases of the ladder the same points are passed as list, tuple of tuples, read-only, Fortran order, strided rows /
+  columns, big-endian, float32 and int32/int64 (when exactly representable), DataFrame (and flat [x, y] for a single
+  point); the weights must equal those of the float64 C-contiguous call to 1e-12; a refused layout is counted.
 """
 import itertools
 from fractions import Fraction
@@ -37,7 +51,11 @@ RULE = ("every (cell set, filled flag, cell-size ratio m/2, coarse dimensions, i
         "oracle is integer arithmetic. A case is one call. An intersect case is non-trivial when at least one "
         "catchment centre falls strictly inside the coarse grid and at least one does not fall in the same coarse "
         "cell or falls outside; a voronoi case is non-trivial when there are >= 2 points and >= 2 cells. Cases are "
-        "generated once each by nested enumeration of distinct parameter values (distinct by construction).")
+        "generated once each by nested enumeration of distinct parameter values (distinct by construction). SIZE "
+        "LADDER: structured cell sets (full, checkerboard, ring, diagonal band) on fine grids of 16, 17, 64, 65 cells "
+        "a side x m x 2 coarse dimensions x 6 offsets x filled; voronoi with 7..65 structured points on 16x16 / 17x17 "
+        "sets; LAYOUTS: 12 containers / dtypes / stride patterns of xypoints on the first case of every voronoi unit "
+        "and 3 point counts of every ladder pattern (differential).")
 ASSUMPTIONS = [
     "a centre exactly on an interior coarse edge may be counted in either adjacent cell (any one); a centre exactly on the outer boundary is inside the grid exactly when the library's own Grid.coord2cell puts it in a cell (the property is silent there; intersect and coord2cell must agree); exact feasibility is decided by a bipartite flow",
     "no catchment centre can fall inside the grid: an empty result and a ValueError are both accepted (property silent)",
@@ -48,6 +66,8 @@ ASSUMPTIONS = [
     "delineated areas are taken from the real delineate_area (its correctness is C06's subject) and used as input cell multisets",
     "Catchment.from_dict is used without inlets (its _idxintlets slip is irrelevant here)",
     "extension modules rebuilt from the working tree C sources; Cython wrapper C not re-translated",
+    "size ladder: fine grids beyond 20x20 are intersected with even m and even offsets only, so that no catchment centre lies on a coarse cell edge and the expected cells / weights are unique (the exact assignment test for edge centres is a max-flow that is too slow for thousands of cells); 16x16 and 17x17 keep odd m and odd offsets",
+    "layout variants of xypoints convert only coordinates that are exactly representable in the target dtype; a layout refused with a Python exception (Fortran order and DataFrame are refused by the present code) is accepted and counted in layout.rejected.voronoi.*; weights that differ by more than 1e-12 from the float64 C-contiguous call are a violation voronoi:layout=<name>",
 ]
 
 OUT = "OUT"
@@ -514,11 +534,15 @@ def bound_text(tier, seed):
             "voronoi: all 512 subsets x 40 tuples of 1..6 points; %d sets x (every single point and ordered pair over the 11x11 "
             "half-cell lattice extended one cell outside, all ordered triples over 5x5 positions, 4-tuples over 3x3, 5-tuples over "
             "%s, 6-tuples over %d positions); family shapes x all 1..%d-tuples over 8 positions + 32 structured 5/6-tuples"
+            "; size ladder: {full, checkerboard, ring, diagonal band} on fine grids %s x m x {covering, quarter} coarse grids x 6 "
+            "offsets x filled (even m / even offsets beyond 20x20); voronoi %s points x patterns %s on {full, checkerboard, ring} of "
+            "16x16, 17x17%s; 12 layouts of xypoints on the first case of every voronoi unit and the 7/16/65-point ladder cases"
             % ([g[0] for g in geoms(tier, seed)],
                " (one geometry per unit in rotation)" if tier == "quick" else
                " (scan / family / vor-tuples units: every geometry; other sub-spaces: one geometry per unit in rotation)", ms(tier), DIMS3, len(SCAN_SETS3), DIMS_SCAN,
                len(family_sets(6)), big, DIMS_BIG, big, dq, len(SCAN_SETS3),
-               "5 positions" if tier == "quick" else "3x3 positions", 4 if tier == "quick" else 6, 3 if tier == "quick" else 4))
+               "5 positions" if tier == "quick" else "3x3 positions", 4 if tier == "quick" else 6, 3 if tier == "quick" else 4,
+               list(BIG_FINE[tier == "quick"]), LADDER_VOR, VOR_PATTERNS, "" if tier == "quick" else ", 33x33, 64x64"))
 
 
 def units(tier, seed):
@@ -565,6 +589,19 @@ def units(tier, seed):
     for si in range(len(SCAN_SETS3)):
         for gi in range(len(gl)):
             us.append({"kind": "vor-far", "set": si, "geom": gi, "tier": tier})
+    # size ladder: larger fine grids / many Voronoi points (geometry rotates; ties need a dyadic geometry)
+    for n in BIG_FINE[tier == "quick"]:
+        for si in range(4):
+            for mi, m in enumerate(ms(tier)):
+                if not [c for c in big_configs(n, tier) if c[0] == m]:
+                    continue
+                us.append({"kind": "big-intersect", "n": n, "set": si, "ms": [m], "geom": (si + mi + n) % len(gl)})
+    for n in ((16, 17) if tier == "quick" else (16, 17, 33, 64)):
+        for si in range(3):
+            for gi in range(len(gl)):
+                if tier == "quick" and gi not in ((si + n) % len(gl), 3):
+                    continue
+                us.append({"kind": "big-voronoi", "n": n, "set": si, "geom": gi})
     for u in us:
         u["seed"] = seed
         u["tier"] = tier
@@ -684,6 +721,171 @@ def delin_configs(tier, n):
     return _DELIN_CFG[key]
 
 
+# ---------------------------------------------------------------------------
+# size ladder: larger fine grids with structured cell sets, many Voronoi points, layouts of xypoints
+
+def big_sets(n):
+    """structured cell sets on an n x n fine grid"""
+    idx = lambda r, c: r * n + c
+    full = [idx(r, c) for r in range(n) for c in range(n)]
+    checker = [idx(r, c) for r in range(n) for c in range(n) if (r + c) % 2 == 0]
+    ring = [idx(r, c) for r in range(n) for c in range(n) if min(r, c, n - 1 - r, n - 1 - c) in (1, 2)]
+    band = [idx(r, c) for r in range(n) for c in range(n) if abs(r - c) <= 1]
+    return [("full", full), ("checker", checker), ("ring", ring), ("diagonal-band", band)]
+
+
+def big_configs(n, tier):
+    """(m, dims, relx, rely): coarse grids that cover the fine grid, half of it, and offsets that put the coarse
+    origin on / next to fine cell edges and centres"""
+    out = []
+    for m in ms(tier):
+        if n > 20 and m % 2:
+            # the exact feasibility test for centres on interior coarse edges (bipartite flow) is too slow for
+            # thousands of cells: the largest grids use even m and even offsets only, where no centre can lie on
+            # a coarse edge (centres are odd lattice points) and the expected weights are unique
+            continue
+        cover = (2 * n + m - 1) // m + 1
+        for dims in ((cover, cover), (max(1, cover // 2), cover // 2 + 1)):
+            if n > 20:
+                offs = [(0, 0), (-2, -2), (2, 4), (-m + 2, 2), (2 * (n // 2), -2 * (n // 2)), (-2 * n - 2, 0)]
+            else:
+                offs = [(0, 0), (-2, -2), (1, 2), (-m + 1, 3), (n, -n), (-1, -1)]
+            for rx, ry in offs:
+                out.append((m, dims, rx, ry))
+    return out
+
+
+BIG_FINE = {True: (16, 17, 64, 65), False: (16, 17, 32, 33, 64, 65, 128, 129)}      # [tier == "quick"]
+LADDER_VOR = [7, 8, 9, 15, 16, 17, 31, 32, 33, 63, 64, 65]
+VOR_PATTERNS = ["lattice", "line", "diagonal-centres", "lattice-duplicates"]
+
+
+def vor_points(n, npts, pattern):
+    """npts structured Voronoi points (half-cell units from the fine grid's corner)"""
+    e = 2 * n
+    if pattern in ("lattice", "lattice-duplicates"):
+        side = 2
+        while side * side < npts:
+            side += 1
+        xs = [-1 + (k * (e + 2)) // (side - 1) for k in range(side)]
+        pts = [(x, y) for y in xs for x in xs][:npts]
+        if pattern == "lattice-duplicates":
+            pts = [pts[i - 1] if i % 3 == 2 else pts[i] for i in range(npts)]      # coincident points: lowest index wins
+        return pts
+    if pattern == "line":
+        # cell corners along the middle row, two half cells apart: every column of cells is equidistant to two points
+        return [(2 * k, n if n % 2 == 0 else n - 1) for k in range(npts)]
+    if pattern == "diagonal-centres":
+        # points on cell centres of the diagonal, wrapping around; later ones run outside the grid
+        return [(2 * k + 1, (2 * ((3 * k) % (n + 2)) + 1)) for k in range(npts)]
+    raise ValueError(pattern)
+
+
+def _ro(a):
+    a = a.copy()
+    a.setflags(write=False)
+    return a
+
+
+def _srows(a):
+    big = np.full((2 * a.shape[0] + 1, a.shape[1]), 0.375, dtype=a.dtype)
+    big[1::2] = a
+    return big[1::2]
+
+
+def _scols(a):
+    big = np.full((a.shape[0], 2 * a.shape[1]), 0.375, dtype=a.dtype)
+    big[:, ::2] = a
+    return big[:, ::2]
+
+
+def xy_layouts():
+    import pandas as pd
+    return [("list", lambda a: a.tolist(), None),
+            ("tuple-of-tuples", lambda a: tuple(tuple(r) for r in a.tolist()), None),
+            ("readonly", _ro, None),
+            ("fortran", np.asfortranarray, None),
+            ("strided-rows", _srows, None),
+            ("strided-columns", _scols, None),
+            ("bigendian", lambda a: a.astype(">f8"), None),
+            ("float32", lambda a: a.astype(np.float32), "float32"),
+            ("float32-fortran", lambda a: np.asfortranarray(a.astype(np.float32)), "float32"),
+            ("int64", lambda a: a.astype(np.int64), "int"),
+            ("int32-strided-rows", lambda a: _srows(a.astype(np.int32)), "int"),
+            ("dataframe", lambda a: pd.DataFrame(a, columns=["x", "y"]), None)]
+
+
+def check_voronoi_layouts(ctx, catch, geom, pts, case):
+    """the same Voronoi points in other containers / dtypes / strides: same weights as the float64 C-contiguous call"""
+    from hydrodiy.gis.grid import voronoi
+    _, cf, (fx, fy), _ = geom
+    h = cf / 2
+    xy = np.array([[(fx + px) * h, (fy + py) * h] for px, py in pts], dtype=np.float64)
+    try:
+        ref = np.asarray(voronoi(catch, xy), dtype=np.float64).copy()
+    except Exception:
+        ctx.count("layout.unjudged.voronoi.reference_raised")
+        return
+    if not np.all(np.isfinite(ref)):
+        ctx.count("layout.unjudged.voronoi.empty_catchment")       # 0/0, not judged (see ASSUMPTIONS)
+        return
+    lays = xy_layouts()
+    if len(pts) == 1:
+        lays = lays + [("flat-1d", lambda a: a[0].copy(), None), ("flat-list", lambda a: a[0].tolist(), None)]
+    for name, conv, needs in lays:
+        if needs == "float32" and not (xy.astype(np.float32).astype(np.float64) == xy).all():
+            ctx.count("layout.unjudged.voronoi.%s.not_exact" % name)
+            continue
+        if needs == "int" and not ((np.round(xy) == xy).all() and (np.abs(xy) < 2 ** 31).all()):
+            ctx.count("layout.unjudged.voronoi.%s.not_exact" % name)
+            continue
+        try:
+            w = np.asarray(voronoi(catch, conv(xy)), dtype=np.float64)
+        except Exception:
+            ctx.case(len(pts) >= 2)
+            ctx.count("layout.rejected.voronoi.%s" % name)
+            continue
+        ctx.case(len(pts) >= 2, outcome=w.tobytes())
+        if w.shape == ref.shape and np.all(np.abs(w - ref) <= 1e-12):
+            ctx.count("layout.agree.voronoi.%s" % name)
+        else:
+            ctx.violation("voronoi:layout=%s" % name, dict(case, layout=name),
+                          "the same %d points given as %s: weights %r, float64 C-contiguous call %r" % (
+                              len(pts), name, w.tolist()[:12], ref.tolist()[:12]),
+                          observed=w.tolist(), expected=ref.tolist())
+
+
+def run_big_unit(unit, ctx, geom, gi):
+    tier = unit["tier"]
+    _, cf, (fx, fy), dyadic = geom
+    kind = unit["kind"]
+    n = unit["n"]
+    if kind == "big-intersect":
+        name, area = big_sets(n)[unit["set"]]
+        filledc = fill_holes(area, n, n)
+        catch = make_catchment(n, n, cf, fx, fy, area, filledc)
+        configs = [c for c in big_configs(n, tier) if c[0] in unit["ms"]]
+        modes = [False, True] if filledc != sorted(area) else [False]
+        ctx.count("big.intersect_catchments")
+        run_intersect_configs(ctx, catch, area, filledc, (n, n), geom, gi, configs, "intersect", modes,
+                              extra={"bigset": name}, first=[False])
+    elif kind == "big-voronoi":
+        name, area = big_sets(n)[unit["set"]]
+        catch = make_catchment(n, n, cf, fx, fy, area, area)
+        first = True
+        for pattern in VOR_PATTERNS:
+            for npts in LADDER_VOR:
+                pts = vor_points(n, npts, pattern)
+                case = dict(vcase((n, n), geom, area, pts), bigset=name, pattern=pattern)
+                if first:
+                    ctx.case(False, n=0, sample=case)
+                ctx.count("voronoi.ladder_calls")
+                check_voronoi(ctx, catch, area, (n, n), geom, pts, case)
+                if first or npts in (7, 16, 65):
+                    check_voronoi_layouts(ctx, catch, geom, pts, dict(case, kind="voronoi-layout"))
+                first = False
+
+
 def run_unit(unit, ctx):
     tier, seed = unit["tier"], unit["seed"]
     gl = geoms(tier, seed)
@@ -692,6 +894,8 @@ def run_unit(unit, ctx):
     _, cf, (fx, fy), dyadic = geom
     kind = unit["kind"]
     first = [False]
+    if kind.startswith("big-"):
+        return run_big_unit(unit, ctx, geom, gi)
     if kind == "combined":
         # catchments obtained with + and - from two others (the left operand has been intersected before,
         # so anything it memoised must not leak into the combination)
@@ -817,6 +1021,17 @@ def sets3_point_tuples():
 
 
 def run_voronoi_unit(unit, ctx, geom, gi):
+    _run_voronoi_unit(unit, ctx, geom, gi)
+    # first case of the unit again in other layouts of xypoints (differential)
+    for smp in ctx.samples[:1]:
+        if isinstance(smp, dict) and smp.get("kind") == "voronoi":
+            fine = tuple(smp["fine"])
+            _, cf, (fx, fy), _ = geom
+            catch = make_catchment(fine[0], fine[1], cf, fx, fy, smp["cells"], smp["cells"])
+            check_voronoi_layouts(ctx, catch, geom, [tuple(p) for p in smp["pts"]], dict(smp, kind="voronoi-layout"))
+
+
+def _run_voronoi_unit(unit, ctx, geom, gi):
     kind = unit["kind"]
     tier = unit["tier"]
     _, cf, (fx, fy), dyadic = geom
@@ -909,6 +1124,11 @@ def replay(case):
     if case["kind"] == "voronoi":
         catch = make_catchment(fine[0], fine[1], cf, fx, fy, case["cells"], case["cells"])
         check_voronoi(ctx, catch, case["cells"], fine, geom, [tuple(p) for p in case["pts"]], case)
+    elif case["kind"] == "voronoi-layout":
+        catch = make_catchment(fine[0], fine[1], cf, fx, fy, case["cells"], case["cells"])
+        check_voronoi_layouts(ctx, catch, geom, [tuple(p) for p in case["pts"]], {k: v for k, v in case.items() if k != "layout"})
+        out = [v for lst in ctx.violations.values() for v in lst]
+        return [v for v in out if v["case"].get("layout") == case.get("layout", v["case"].get("layout"))]
     else:
         if case["kind"] == "intersect-combined":
             ca = make_catchment(fine[0], fine[1], cf, fx, fy, case["a"], case["fa"])
